@@ -53,11 +53,11 @@ m = {
         "name": "lean4-model+correspondence",
         "path": "lean/ (model, specs, theorems, driver) + harness/ (translator, correspondence, search)",
         "serves_properties": [c["property_id"] for c in checks],
-        "kind_free_text": "Lean 4.33 kernel-checked theorems on a hand-written + regenerated model; compiled model driver compared with the Python implementation over a line protocol",
+        "kind_free_text": "Lean 4.33 kernel-checked theorems on a model that is partly hand-written and partly regenerated from the working tree on every run (regular expressions, tables, and the source of about 170 library functions translated statement by statement and proved equal to the hand-written model); compiled model driver compared with the Python implementation over a line protocol; laws from the property statements searched on the real code for replayable failing inputs",
     }],
     "checks": checks,
     "not_applicable": na,
-    "notes": "See DESIGN.md. ./check <id> <quick|thorough>; known findings in known_findings.json.",
+    "notes": "See DESIGN.md (section 0 is the as-built record). ./check <id> <quick|thorough> [--replay FILE]; exit 0 / 1 (VIOLATION lines) / 2 (infrastructure). Known findings: known_findings.json (KNOWN-FINDING lines; fixed entries record the fix: commits made to /repo). Seeded property-breaking changes with the verdict each produces: seeded/; behaviour-preserving rewrites used to measure false alarms: harmless/. A proof or correspondence that no longer checks without a concrete failing input ends in VIOLATION ... no-failing-input-found.",
 }
 (ROOT / "MANIFEST.json").write_text(json.dumps(m, indent=1) + "\n")
 print(len(checks), "checks;", len(na), "not claimed")
